@@ -120,6 +120,7 @@ func cmdCheck(args []string) int {
 	roots := rootsFor(db, prop)
 	lemmas := lemmasFor(db, prop)
 	lemmas = append(lemmas, sideCondsFor(db, prop)...)
+	lemmas = append(lemmas, leanLemmasFor(prop)...)
 	if len(roots) == 0 && len(lemmas) == 0 {
 		fmt.Fprintf(os.Stderr, "govc: no contract mentions property %s\n", prop)
 		return 2
